@@ -341,6 +341,9 @@ func genCase(t *rapid.T) Case {
 	g := &genCtx{t: t, pl: poolFor(c.Dict, p, cat, c.App), o: &oracle{p: p, app: c.App}}
 	c.Type = g.fields(1, 1, 6, map[uint32]bool{})
 	c.Val = g.values(c.Type)
+	if rapid.IntRange(0, 2).Draw(t, "second-value") == 0 {
+		c.Val2 = g.values(c.Type)
+	}
 	c.SpareCap = rapid.IntRange(0, 2).Draw(t, "spare-cap") == 0
 	c.Second = rapid.IntRange(0, 2).Draw(t, "second") == 0
 	c.Prefill = rapid.SampledFrom([]string{"", "", "", "", "", preAVPs, preRemarshal, preOther}).Draw(t, "prefill")
